@@ -203,6 +203,14 @@ static Input gen_input(Tape &t) {
     in.files[in.main] = gm::soup(t, true, 30);
     in.kind = "soup";
   }
+  if (t.chance(1, 6)) {
+    // a macro whose pattern is not prefix-deterministic in front of the program: it is reported (every time) and
+    // never applied - a process-wide table cache that forgets the conflicts would accept it the second time
+    static const char *NONLR[] = {"DEFINE twice <P> AS $0 ; $0 END DEFINE\n", "DEFINE <P> BUT FIRST <P> AS $1 ; $0 END DEFINE\n",
+                                  "DEFINE both <P> ; <P> END AS $0 ; $1 END DEFINE\n", "DEFINE call <ID> <ARGS> AS RUN $0 WITH $1 END END DEFINE\n"};
+    in.files[in.main] = NONLR[t.pick(4)] + in.files[in.main];
+    in.kind += "+non-LR-macro";
+  }
   if (t.chance(1, 8)) {
     // the caller may supply a file with the name of the hidden standard-macro file: it then replaces the hidden
     // one (same two rules here, shifted down by some lines, so the program keeps its meaning)
